@@ -195,6 +195,37 @@ def seq_oracle(case, impl, cfg):
     ops = [o.strip() for o in case.split("|", 1)[1].split(";") if o.strip()]
     res = [r.strip() for r in parts[0].split(" ; ") if r.strip()]
     hdr = cfg["hdr"]
+    # max_memory_to_use bound (theorem C14_max_memory_honoured) judged on the implementation's own results
+    arrays, prec, maxmem, known, tprev = [], 8, 0, True, None
+    for o, r in zip(ops, res):
+        f = o.split()
+        okr = r.startswith("ok")
+        if f[0] == "prec":
+            prec = int(f[1])
+        elif f[0] == "init" and okr:
+            arrays, maxmem, known = [], 0, True
+        elif f[0] == "maxmem" and okr:
+            maxmem = int(f[1])
+        elif f[0] in ("reqs", "reqb") and okr:
+            arrays.append((f[0], int(f[2]), int(f[3]), int(f[4])))
+        elif (f[0] == "freep" and f[1] == "1" and okr) or (f[0] == "destroy" and okr):
+            arrays, known = [], True
+        elif f[0] == "real":
+            if okr and known and maxmem > 0 and tprev is not None and arrays:
+                unit = lambda k: (2 if prec > 8 else 1) if k == "reqs" else cfg["block"]
+                need = sum(rows * w * unit(k) for k, w, rows, acc in arrays)
+                minneed = sum(acc * w * unit(k) for k, w, rows, acc in arrays)
+                avail = max(maxmem - tprev, 0)
+                if need > max(avail, minneed):
+                    return ("realize_virt_arrays succeeded with max_memory_to_use=%d and %d bytes already allocated, although the arrays need "
+                            "%d bytes (> max(available=%d, one access height each=%d)); expected JERR_NO_BACKING_STORE" % (
+                                maxmem, tprev, need, avail, minneed), "mm-maxmem-bound")
+            if okr:
+                arrays = []
+            elif not r.startswith("nomgr"):
+                known = False
+        mt = re.search(r"\]t=(\d+)", r)
+        tprev = int(mt.group(1)) if mt else None
     for o, r in zip(ops, res):
         for sz, rid in EV.findall(r):
             if int(sz) > cfg["max"]:
@@ -352,7 +383,7 @@ def exec_part_a(ctx, drv, exes, cases, add_sweep=True):
 
 
 # ------------------------------------------------------------- (b) catalogue
-RES = re.compile(r"result (\S+) (\S+) (-?\d+) (-?\d+) rc=(-?\d+) n=(\d+) live=(\d+) leakbytes=(\d+) firstleak=(\S+) badfree=(\d+) peak=(-?\d+) \| ?(.*)")
+RES = re.compile(r"result (\S+) (\S+) (-?\d+) (-?\d+) rc=(-?\d+) n=(\d+) live=(\d+) leakbytes=(\d+) firstleak=(\S+) badfree=(\d+) peak=(-?\d+) stolen=(\d+) badptr=(\d+) \| ?(.*)")
 INITNAME = {"c": "compress", "d": "decompress", "t": "transform"}
 
 
@@ -378,15 +409,29 @@ def fi_eval(ctx, fl, line, case, info, ninit):
     m = RES.match(line or "")
     if not m:
         return None
-    name, mode, k1, k2, rc, n, live, leak, first, bad, peak, msg = m.groups()
-    k1, k2, rc, n, live, leak, bad = int(k1), int(k2), int(rc), int(n), int(live), int(leak), int(bad)
+    name, mode, k1, k2, rc, n, live, leak, first, bad, peak, stolen, badptr, msg = m.groups()
+    k1, k2, rc, n, live, leak, bad, stolen, badptr = int(k1), int(k2), int(rc), int(n), int(live), int(leak), int(bad), int(stolen), int(badptr)
+    fam = re.sub(r"_.*", "", name) if not name.startswith(("xf_filt", "lj_seq", "tj_seq")) else name[:6]
     if rc not in (0, -1):
-        ctx.violation("scenario %s returned %d (neither success nor error)" % (name, rc), {"fi": case, "flavour": fl, "result": line},
-                      signature="fi-rc:%s" % name)
+        ctx.violation("scenario %s (%s %s): %s (rc=%d)" % (name, mode, k1, msg.strip() or "neither success nor error", rc),
+                      {"fi": case, "flavour": fl, "result": line}, signature="fi-rc:%s" % name)
+    nf = lambda t: t.replace("with allocation failure none 0:", "WITHOUT any injected failure:")
+    kk = k1 if mode != "pair" else (k1, k2)
+    if badptr > 0:
+        ctx.violation(nf("%s with allocation failure %s %s: after the call %d pointer(s) handed to the caller point to memory that is no longer "
+                         "allocated (dangling: a write or free through it corrupts the heap); API said: rc=%d '%s'" % (
+                             name, mode, kk, badptr, rc, msg.strip())),
+                      {"fi": case, "flavour": fl, "result": line}, signature="dangling:%s" % name)
+    if stolen > 0:
+        ctx.violation(nf("%s with allocation failure %s %s: the library free()d %d block(s) owned by the application (caller-supplied buffer or a "
+                         "result already handed over); API said: rc=%d '%s'" % (name, mode, kk, stolen, rc, msg.strip())),
+                      {"fi": case, "flavour": fl, "result": line}, signature="freed-callers-block:%s" % name)
     if live > 0 or bad > 0:
         sig = fi_signature(name, mode, k1, k2, n, info, ninit)
         what = ("%s with allocation failure %s %s: %d library block(s) / %d bytes still allocated after destroy (first leaked: allocation #%s), "
-                "%d invalid free(s); API said: rc=%d '%s'" % (name, mode, (k1 if mode != "pair" else (k1, k2)), live, leak, first, bad, rc, msg.strip()))
+                "%d free()s of a block that was not allocated (double free); API said: rc=%d '%s'" % (
+                    name, mode, (k1 if mode != "pair" else (k1, k2)), live, leak, first, bad, rc, msg.strip()))
+        what = nf(what)
         ctx.violation(what, {"fi": case, "flavour": fl, "result": line}, signature=sig)
     return (name, mode, rc, n, msg.strip()[:60])
 
@@ -412,8 +457,10 @@ def fi_setup(ctx, exe, d, fl):
     info = {}
     for l in out.decode().split("\n"):
         f = l.split()
-        if len(f) == 4 and f[0] == "scn":
+        if len(f) >= 4 and f[0] == "scn":
             info[f[1]] = (f[2], f[3])
+            if f[1].startswith("xf_filt_") and len(f) > 4:
+                XF[f[1]] = tuple(int(x) for x in f[4].split(","))
     names = list(info)
     lines = ["run %s none 0 0" % nm for nm in names]
     outs, crashes = fi_run(exe, d, lines)
@@ -425,10 +472,9 @@ def fi_setup(ctx, exe, d, fl):
                           signature="fi-crash-nofail:%s" % nm)
             continue
         counts[nm] = int(m.group(6))
-        if int(m.group(7)) or int(m.group(10)):
-            ctx.violation("scenario %s leaks without any injected failure: %s" % (nm, o), {"fi": "run %s none 0 0" % nm, "flavour": fl, "result": o},
-                          signature="leak-nofail:%s" % nm)
+        fi_eval(ctx, fl, o, "run %s none 0 0" % nm, info, {})
     ninit = {t: counts.get("init_" + t, 0) for t in "cdt"}
+    ctx._c14_nofail = (names, outs)
     return info, counts, ninit
 
 
@@ -488,12 +534,73 @@ def init_model_tie(ctx, drv, fl, lines, outs):
     ctx.cov["tjinit_model_disagreements"] = ctx.cov.get("tjinit_model_disagreements", 0) + bad
 
 
+def destbuf_script(name):
+    """the DestBuf-model script of a catalogue scenario run WITHOUT injected failures (None: not applicable)"""
+    if name.startswith("lj_seq_") or name.startswith("tj_seq_"):
+        pat = name[7:]
+        tr = {"L": "L2F", "S": "C2F", "M": "C2F", "B": "C0F", "N": "C0F", "R": "R0F"}
+        toks = [tr[pat[i]] + pat[i + 1] for i in range(0, len(pat), 2)]
+        return ("lj" if name.startswith("lj") else "tj"), toks
+    return None
+
+
+XF = {}
+
+
+def destbuf_tie(ctx, drv, fl, names, outs):
+    """DestBuf model (configuration read from the source) vs the sequence / custom-filter scenarios without injected failures:
+    leak, invalid free or dangling pointer, library freeing an application block must agree"""
+    if not drv:
+        return
+    q, idx = [], []
+    for i, nm in enumerate(names):
+        sc = destbuf_script(nm)
+        if nm.startswith("xf_filt_") and nm in XF and XF[nm][4] != 1:
+            n, fail, later, icc, buf = XF[nm]
+            m = "L" if buf == 0 else "C"
+            g = 2 if icc else (1 if buf == 2 else 0)
+            toks = []
+            for t in range(n):
+                if t == fail:
+                    toks.append("%s%dTf" % (m, g))
+                    break
+                toks.append("%s%dF%s" % (m, g, "k" if (0 <= fail < n) or t < n - 1 else "f"))
+            if not (0 <= fail < n):
+                toks[-1] = toks[-1][:3] + "f"
+            toks.append("L%dFf" % g)
+            sc = ("tj", toks)
+        if sc and outs[i]:
+            q.append("destbuf %s %s" % (sc[0], " ".join(sc[1])))
+            idx.append(i)
+    if not q:
+        return
+    rc, out, err = sh2([drv], input=("\n".join(q) + "\n").encode(), timeout=300)
+    ml = out.decode().split("\n")
+    bad = 0
+    for i, mo, qq in zip(idx, ml, q):
+        m = RES.match(outs[i])
+        mm = re.match(r"destbuf leak=(\d+) badfree=(\d+) stolen=(\d+)", mo)
+        if not m or not mm:
+            continue
+        impl = (int(m.group(7)) > 0, int(m.group(10)) + int(m.group(13)) > 0, int(m.group(12)) > 0)
+        mod = (int(mm.group(1)) > 0, int(mm.group(2)) > 0, int(mm.group(3)) > 0)
+        ctx.cov["traces_validated_against_impl"] += 1
+        if impl != mod:
+            bad += 1
+            if bad <= 3:
+                ctx.log("DestBuf model/impl disagree on", names[i], qq, "\n  model (leak, bad free/dangling, app block freed):", mod, "\n  impl:", impl)
+                ctx.broken_tie("correspondence:destbuf:" + fl, "destination-buffer model and implementation differ on %s [%s]: model=%s impl=%s" % (
+                    names[i], qq, mod, impl))
+    ctx.cov["destbuf_model_disagreements"] = ctx.cov.get("destbuf_model_disagreements", 0) + bad
+
+
 def exec_part_b(ctx, built, drv=None):
     for fl, (exe, d) in built.items():
         su = fi_setup(ctx, exe, d, fl)
         if su is None:
             continue
         info, counts, ninit = su
+        destbuf_tie(ctx, drv, fl, *ctx._c14_nofail)
         rng = ctx.rng.fork()
         lines = []
         for nm, n in counts.items():
@@ -548,6 +655,93 @@ def limit_cases(ctx):
         out.append(("limit mem 1 640 480 %s" % api, True, "Memory limit exceeded", "mem"))
         out.append(("limit mem 64 640 480 %s" % api, False, "", "mem"))
     return out
+
+
+WIDE = [("dec", 48000, 128, 420), ("coef", 48000, 128, 420), ("comp", 48000, 128, 420), ("comp", 65500, 16, 444), ("dec", 65500, 96, 444)]
+WIDE_API = {"dec": "decompress8", "coef": "transform", "comp": "compress"}
+
+
+def wide_cases(ctx, fl):
+    """very wide multi-scan images: the ordinary (non-virtual) allocations alone reach small limits"""
+    rng = ctx.rng.fork()
+    ms = [0, 1, 1000, 65536, 1 << 20, 2 << 20, 3 << 20, 4 << 20, 6 << 20, 8 << 20, 12 << 20, 16 << 20, 20 << 20, 24 << 20, 32 << 20, 64 << 20]
+    out = []
+    for kind, w, h, ss in WIDE:
+        for m in ms + [rng.range(1, 40 << 20) for _ in range(ctx.n(2, 12))]:
+            out.append("limit vmem %s %d %d %d %d %d" % (kind, w, h, ss, m, 1 if (ctx.thorough() and m in (0, 64 << 20)) else 0))
+    mbs = [1, 2, 3, 4, 6, 8, 12, 16, 24, 32, 64]
+    if fl.startswith("asan") and not ctx.thorough():
+        mbs = [1, 2, 4]
+    for kind, w, h, ss in WIDE:
+        for mb in mbs:
+            out.append("limit wmem %d %d %d %d %s" % (mb, w, h, ss, WIDE_API[kind]))
+    return out
+
+
+def exec_wide(ctx, built):
+    MB = 1 << 20
+    for fl, (exe, d) in built.items():
+        cases = wide_cases(ctx, fl)
+        outs, crashes = fi_run(exe, d, cases)
+        for idx, rc, err in crashes:
+            case = cases[min(idx, len(cases) - 1)]
+            ctx.violation("memory-limit case crashed (%s build, rc=%d): %s" % (fl, rc, err[-400:]), {"limit": case, "flavour": fl, "stderr": err},
+                          signature="limit-crash:" + " ".join(case.split()[1:3]))
+        facts = {}
+        for case, o in zip(cases, outs):
+            if o is None:
+                continue
+            f = case.split()
+            if f[1] == "vmem":
+                m = re.search(r"rc=(-?\d+) need=(\d+) minneed=(\d+) tbefore=(\d+) realize_calls=(\d+) ok=(\d+) boundviol=(\d+) peak=(\d+) live=(\d+) \| ?(.*)", o)
+                if not m:
+                    ctx.violation("limit case gave no result: " + o, {"limit": case, "flavour": fl}, signature="limit-noresult")
+                    continue
+                rc, need, mn, tb, calls, okc, bv, peak, live = map(int, m.groups()[:9])
+                why = m.group(10)
+                M = int(f[6])
+                key = tuple(f[2:6])
+                facts[key] = (need, mn, tb)
+                avail = max(M - tb, 0)
+                what = None
+                if M > 0 and rc == 0 and (bv or need > max(avail, mn)):
+                    what = ("max_memory_to_use=%d, %d bytes already allocated: realize_virt_arrays SUCCEEDED for virtual arrays of %d bytes "
+                            "(> max(available %d, one access height each %d)); expected 'Memory limit exceeded'" % (M, tb, need, avail, mn))
+                elif rc == 0 and M > 0 and peak > M + max(mn, 0) + tb:
+                    what = "max_memory_to_use=%d but %d bytes were live at the peak" % (M, peak)
+                elif rc != 0 and (M == 0 or M - tb >= need):
+                    what = "a limit of %d bytes (%d already allocated, arrays need %d) must be accepted, got '%s'" % (M, tb, need, why.strip())
+                elif rc != 0 and "Memory limit exceeded" not in why:
+                    what = "expected 'Memory limit exceeded', got '%s'" % why.strip()
+                elif live:
+                    what = "%d blocks live after jpeg_destroy" % live
+                if what:
+                    ctx.violation("libjpeg %s of a %sx%s progressive image: %s" % (f[2], f[3], f[4], what), {"limit": case, "flavour": fl, "result": o},
+                                  signature="maxmem-bound:%s:%sx%s" % (f[2], f[3], f[4]))
+            else:
+                m = re.search(r"rc=(-?\d+) peak=(-?\d+) \| ?(.*)", o)
+                if not m:
+                    ctx.violation("limit case gave no result: " + o, {"limit": case, "flavour": fl}, signature="limit-noresult")
+                    continue
+                rc, peak, why = int(m.group(1)), int(m.group(2)), m.group(3)
+                mb, w, h, ss, api = int(f[2]), f[3], f[4], f[5], f[6]
+                kind = [k for k, v in WIDE_API.items() if v == api][0]
+                fk = facts.get((kind, w, h, ss))
+                if not fk:
+                    continue
+                need, mn, tb = fk
+                what = None
+                if need > max(mb * MB, mn) and not (rc == -1 and "Memory limit exceeded" in why):
+                    what = ("TJPARAM_MAXMEMORY=%d MB NOT enforced: the coefficient arrays need %d bytes (one access height: %d, ordinary allocations "
+                            "%d), the call must fail with 'Memory limit exceeded' but gave rc=%d '%s' (peak %d bytes)" % (mb, need, mn, tb, rc, why.strip(), peak))
+                elif mb * MB >= tb + need + 4 * MB and rc != 0:
+                    what = "TJPARAM_MAXMEMORY=%d MB is enough (%d bytes needed) but the call failed: '%s'" % (mb, tb + need, why.strip())
+                elif rc == -1 and "Memory limit exceeded" in why and peak > tb + MB + mn:
+                    what = "rejected, but %d bytes were live at the peak (ordinary allocations: %d)" % (peak, tb)
+                if what:
+                    ctx.violation("tj3 %s of a %sx%s progressive image: %s" % (api, w, h, what), {"limit": case, "flavour": fl, "result": o},
+                                  signature="maxmem-not-enforced:%s:%sx%s" % (api, w, h))
+            ctx.count("limit-%s:%s" % (f[1], fl), 1, ("limit", case))
 
 
 def exec_part_c(ctx, built, drv, cases=None):
@@ -627,6 +821,19 @@ def do_replay(ctx, drv):
                 ctx.log("replay:", outs[0])
     elif "limit" in r:
         built = part_b(ctx, [fl])
+        if r["limit"].split()[1] in ("vmem", "wmem"):
+            orig = globals()["wide_cases"]
+            f = r["limit"].split()
+            extra = []
+            if f[1] == "wmem":      # the verdict needs the facts of the same image from the libjpeg-level run
+                kind = [k for k, v in WIDE_API.items() if v == f[6]][0]
+                extra = ["limit vmem %s %s %s %s 0 0" % (kind, f[3], f[4], f[5])]
+            globals()["wide_cases"] = lambda c, fl_: extra + [r["limit"]]
+            try:
+                exec_wide(ctx, built)
+            finally:
+                globals()["wide_cases"] = orig
+            return
         cases = [c for c in limit_cases(ctx) if c[0] == r["limit"]]
         if not cases:
             f = r["limit"].split()
@@ -656,6 +863,7 @@ def run(ctx):
     exec_part_b(ctx, built, drv)
     ctx.log("(b) fault-injection catalogue done: %s scenarios" % ctx.cov.get("fi_scenarios"))
     exec_part_c(ctx, built, drv)
+    exec_wide(ctx, built)
     ctx.log("(c) limits done")
     ctx.cov["rule"] = ("(a) op sequences over the 12 client operations of jpeg_memory_mgr: random mixes with sizes at the slop / "
                        "MAX_ALLOC_CHUNK / 2^64 boundaries, virtual-array scripts with and without max_memory_to_use, SIZE_MAX-guard scripts, "
